@@ -44,6 +44,12 @@ def select_fields(fields, resources=None, regex=True):
                     "Can't find any fields to select in resource %s" % resource['name']
 
                 resource['schema']['fields'] = new_fields
+                # a primary key that lost one of its fields is no key any more
+                primary_key = resource['schema'].get('primaryKey') or []
+                if isinstance(primary_key, str):
+                    primary_key = [primary_key]
+                if any(k not in configuration[resource['name']] for k in primary_key):
+                    del resource['schema']['primaryKey']
         yield package.pkg
 
         for resource in package:
